@@ -252,6 +252,36 @@ def _f2_masked(x, y):
     return out
 
 
+class _Memo2(object):
+    """an integrand that keeps what it computed (a model evaluated once per grid) and hands the SAME array out again"""
+
+    def __init__(self):
+        self.cache = {}
+
+    def __call__(self, x, y):
+        if np.ndim(x) == 0:
+            return _g2(x, y)
+        key = (np.asarray(x).tobytes(), np.asarray(y).tobytes())
+        if key not in self.cache:
+            self.cache[key] = np.asarray(_g2(np.asarray(x, dtype="f8"), np.asarray(y, dtype="f8")), dtype="f8")
+        return self.cache[key]
+
+
+class _Memo1(object):
+    def __init__(self):
+        self.cache = {}
+
+    def __call__(self, x):
+        if np.ndim(x) == 0:
+            return math.cos(3.0 * float(x)) + float(x)
+        key = np.asarray(x).tobytes()
+        if key not in self.cache:
+            self.cache[key] = np.cos(3.0 * np.asarray(x, dtype="f8")) + np.asarray(x, dtype="f8")
+        return self.cache[key]
+
+
+F2.update({"style:memoised": _Memo2()})
+FUNCS.update({"style:memoised": _Memo1().__call__})     # (QGauss.integrate takes functions and bound methods; other callables are data to it)
 F2.update({"style:stack": _f2_stack, "style:prealloc": _f2_prealloc, "style:pointwise": _f2_pointwise, "style:masked": _f2_masked})
 
 RANGES2 = [((0.0, 2.0), (-1.0, 3.0)), ((-1.0, 1.0), (-1.0, 1.0)), ((1.0, 0.0), (0.0, 2.0)),
